@@ -406,3 +406,50 @@ TEXT["C06"] = {
                    "alloc-related aborts are out of scope as the property says."),
     "technique": "TLA+ spec + TLC (MC_Node invariant NoPanic on the assertion state) + random/junk-byte histories under catch_unwind in debug and release builds, validated as traces; exhaustive Config constructor sweep",
 }
+
+
+# ------------------------------------------------------------------------------------------------
+# cluster-level model checking (MC_Cluster): exhaustive for 2 and 3 instances on the coarse time grid
+
+def cluster_mc(cfgs):
+    out = []
+    for name, what, tiers in cfgs:
+        out.append({"module": "MC_Cluster", "cfg": "MC_Cluster_%s.cfg" % name, "workers": 8, "timeout": 3000,
+                    "what": what, "tiers": tiers})
+    return out
+
+
+BOTH = ("quick", "thorough")
+PROPS["C02"]["level"] = "model_checking"
+PROPS["C02"]["mc"] = cluster_mc([
+    ("c02_n2", "exhaustive: 2 instances, every interleaving, horizon = the discovery bound", BOTH),
+    ("c02_n3", "exhaustive: 3 instances, every interleaving and target choice, horizon = the discovery bound", BOTH),
+    ("c02_n3g", "exhaustive: 3 instances, max_transmissions 1, periodic gossip and announce on", ("thorough",)),
+])
+PROPS["C03"]["level"] = "model_checking"
+PROPS["C03"]["mc"] = cluster_mc([
+    ("c03_n2", "exhaustive: 2 instances, crash or leave of either at every reachable state of the formed cluster", BOTH),
+    ("c03_n3", "exhaustive: 3 instances, crash or leave of any one at every reachable state of the formed cluster", ("thorough",)),
+])
+PROPS["C04"]["level"] = "model_checking"
+PROPS["C04"]["mc"] = cluster_mc([
+    ("c04_n2", "exhaustive: 2 instances, notify_down_members on, any one datagram lost at any reachable state", BOTH),
+    ("c04_n3", "exhaustive: 3 instances, renewable identities, notify_down_members on, any one datagram lost", ("thorough",)),
+])
+PROPS["C18"]["level"] = "model_checking"
+PROPS["C18"]["mc"] = cluster_mc([
+    ("c18_n2", "exhaustive + liveness: 2 non-renewable instances in all 5x5 mutual-knowledge x defunct x pending-suspicion states, "
+               "one datagram of every kind injected, every delivery order; Terminates under weak fairness", BOTH),
+    ("c18_n2r", "as above with renewable identities", BOTH),
+])
+for k, extra in (("C02", "TLC first checks the same monitor exhaustively on MC_Cluster (2 and 3 FocaNode instances, network, timers, coarse "
+                         "time grid with every same-tick interleaving) up to the discovery bound. "),
+                 ("C03", "TLC first checks the same monitor exhaustively on MC_Cluster for 2 (and 3) instances with Crash/Leave enabled at "
+                         "every reachable state of the formed cluster. "),
+                 ("C04", "TLC first checks the same monitor exhaustively on MC_Cluster for 2 (and 3) instances with one Drop of any datagram "
+                         "at any reachable state. "),
+                 ("C18", "TLC first checks, on MC_Cluster with timers held, all mutual-knowledge initial states of 2 instances x every initial "
+                         "datagram kind x every delivery order: the per-delivery bound as invariant and termination as a liveness property "
+                         "(no state constraint). ")):
+    TEXT[k]["level_text"] = extra + TEXT[k]["level_text"]
+    TEXT[k]["technique"] = "TLA+ spec + TLC exhaustive on MC_Cluster (2-3 instances) + " + TEXT[k]["technique"]
